@@ -502,6 +502,15 @@ example : NoLinkBelow fs4 [Rn] ∧ ¬ Fresh fs4 [Rn] := by
 example : (unpackMain id {} (hostile false) (some Rn) noFaults [] fs4).exit = 1 ∧
     (unpackMain id {} (hostile false) (some Rn) noFaults [] fs4).trace = [(.symlink upX A, some .EEXIST)] ∧
     (unpackMain id {} (hostile false) (some Rn) noFaults [] fs4).fs [X] = some ⟨.file [1], {}⟩ := by decide
+/-! the remaining theorems with hypotheses, applied to the hostile tree with every hypothesis discharged -/
+example := skipped_reported_rest_unpacked { chmod := true } (hostile false) (by decide)
+example : (restoreFstree { chmod := true } (hostile false)).skips = skippedRoot (hostile false) :=
+  skip_reports_exact { chmod := true } (hostile false) (by decide)
+/-- `plan_prefix_dirs` at the `open("b/a", O_EXCL)` event of the plan: its proper prefix `b` was made by an earlier `mkdir` -/
+example := plan_prefix_dirs id (fun _ _ h => h) { chmod := true } (hostile false) _ _ _
+  (show (unpackTree id { chmod := true } (hostile false)).evs =
+    [.sys (.symlink upX A), .sys (.mkdir B 0o755), .skip DD] ++ Ev.sys (.openExcl [98, 47, 97] 0o200) ::
+     [.skip DD, .sys (.openTrunc [98, 47, 97] [2]), .sys (.chmod [98, 47, 97] 0), .sys (.chmod B 0)] from by decide)
 end examples
 
 end Sqfs.C06
